@@ -30,7 +30,8 @@ RULE = ("job = seed -> scenario with version *ranges* on both sides (so that "
         "digest(scenario, attack); non-trivial = the attack altered traffic "
         "that at least one endpoint processed"
         ' Also: ticket-issuing servers with flips aimed at the clear-text RFC 5077 NewSessionTicket (client must hold exactly what the server issued), and the TLS 1.1 sentinel of servers capped at TLS 1.2.'
-        ' Injected warnings include half an alert (one byte); after both completed the sender of the attacked direction closes and its peer must read a plain end of stream; the sentinel must be ABSENT when the server negotiated its own maximum.')
+        ' Injected warnings include half an alert (one byte); after both completed the sender of the attacked direction closes and its peer must read a plain end of stream; the sentinel must be ABSENT when the server negotiated its own maximum.'
+        " Alert-write faults: an endpoint's transport fails (timeout / EPIPE / reset) exactly while it writes a fatal alert - a detected tamper must not turn into a completed handshake.  Sweep family: EVERY byte of the plaintext handshake records of fixed flows (TLS 1.3 full / HelloRetryRequest, TLS 1.2 resumption; thorough: + tickets) is flipped once; both ends completing on transcripts that differ is a violation (transcripts_differ).")
 LEVEL_TEXT = ("Seeded fault search over the plaintext part of every flight "
               "(all byte positions are reachable; quick samples them, "
               "thorough covers them densely) and over structured downgrade "
@@ -48,7 +49,9 @@ PROBES = ATTACKS + ["both_complete_same", "sentinel_seen",
                     "client_aborted_on_sentinel", "fallback_refused",
                     "resumption", "hrr", "tls13_base", "tls12_base",
                     "fallback_with_session", "ticket_compared",
-                    "close_after_attack",
+                    "close_after_attack", "alert_write_fault",
+                    "sweep_tls13_cert", "sweep_tls13_hrr",
+                    "sweep_tls12_resume_id",
                     "sentinel_tls12_server"]
 COMPONENTS_REAL = ["tlslite handshakes (transcript hashing, Finished / "
                    "binder checks, downgrade sentinel, FALLBACK_SCSV)"]
@@ -59,12 +62,62 @@ SENT12 = bytes.fromhex("444f574e47524401")
 SENT11 = bytes.fromhex("444f574e47524400")
 
 
+# sweep family: EVERY byte of the plaintext handshake flights of a few fixed
+# flows (preset scenario draws: cfg.hi, cfg.lo, cfg.fl)
+SWEEP = [("tls13_cert", {"cfg.hi": [0], "cfg.fl": [0]}),
+         ("tls13_hrr", {"cfg.hi": [0], "cfg.fl": [5]}),
+         ("tls12_resume_id", {"cfg.hi": [1], "cfg.lo": [1], "cfg.fl": [6]}),
+         ("tls12_tickets", {"cfg.hi": [1], "cfg.lo": [1], "cfg.fl": [8]}),
+         ("tls12_resume_ticket", {"cfg.hi": [1], "cfg.lo": [1],
+                                  "cfg.fl": [7]})]
+
+
+def sweep_jobs(tier, base_seed):
+    """One job per (flow, direction, plaintext handshake record, byte): the
+    layout comes from the un-attacked run of the same seed."""
+    from tlslite.api import SessionCache
+    out = []
+    seed = base_seed * 1000003 + 900000
+    flows = SWEEP if tier == "thorough" else SWEEP[:3]
+    for name, pre in flows:
+        ch = kernel.Chooser(streams=dict(pre))
+        sc = draw_scenario(ch)
+        session = cache = None
+        if sc.get("resume"):
+            cache = SessionCache()
+            r1 = execute(seed + 1, sc, kernel.Chooser(streams={}), None,
+                         cache=cache, tag="0")
+            session = r1[1].c.conn.session
+        r0 = execute(seed, sc, kernel.Chooser(streams={}), None,
+                     session=session, cache=cache)
+        m0 = r0[2]
+        for di, d in enumerate(("c2s", "s2c")):
+            for idx, (t, vv, body) in enumerate(m0.seen[d]):
+                if t != 22 or (idx > 0 and tuple(sc["cset"]["maxVersion"])
+                               == (3, 4) and d == "c2s" and
+                               body[:1] != b"\x01"):
+                    break
+                stride = 1 if len(body) <= 400 or tier == "thorough" else 3
+                for pos in range((base_seed % stride), len(body), stride):
+                    for mask in ((0, 1, 2) if tier == "thorough" else
+                                 (pos % 3,)):
+                        p = dict(pre)
+                        p.update({"a.kind": [0], "a.dir": [di],
+                                  "a.rec": [idx], "a.pos": [pos],
+                                  "a.mask": [mask]})
+                        out.append({"seed": seed, "fam": "sweep",
+                                    "flow": name, "preset": p})
+    return out
+
+
 def plan(tier, base_seed):
     n = {"quick": 2500, "thorough": 500000}[tier]
     jobs = [{"seed": base_seed * 1000003 + i} for i in range(n)]
     for j in jobs[:3]:
         j["keep"] = True
-    return jobs
+    sw = sweep_jobs(tier, base_seed)
+    # the sweep first: it is an enumeration, not a sample
+    return jobs[:3] + sw + jobs[3:]
 
 
 def draw_scenario(ch):
@@ -187,7 +240,8 @@ def rewrite_hello(kind, body, ch, info):
     return bytes(out)
 
 
-def execute(seed, sc, chooser, attack, session=None, cache=None, tag=""):
+def execute(seed, sc, chooser, attack, session=None, cache=None, tag="",
+            awf=None):
     sim = nodes.new_run(seed, chooser=chooser, max_steps=100000,
                         sched="first")
     pair = nodes.Pair(sim, sc, policy="ideal",
@@ -198,6 +252,10 @@ def execute(seed, sc, chooser, attack, session=None, cache=None, tag=""):
     tc = taps.SendTap(pair.c.conn)
     ts = taps.SendTap(pair.s.conn)
     tc.keep_plain = ts.keep_plain = True
+    if awf:
+        # the transport fails exactly while an endpoint writes a fatal alert
+        pair.awf = [taps.AlertWriteFault(e.conn, e.sock, awf)
+                    for e in (pair.c, pair.s)]
     oc, os_, st = pair.handshake(session=session, cache=cache)
     return sim, pair, m, oc, os_, st, tc, ts
 
@@ -206,11 +264,15 @@ def run(job, streams=None):
     from tlslite.errors import TLSLocalAlert, TLSRemoteAlert
     from tlslite.api import SessionCache
     seed = job["seed"]
+    if streams is None and job.get("preset") is not None:
+        streams = job["preset"]
     ch = kernel.Chooser(seed=seed) if streams is None else \
         kernel.Chooser(streams=streams)
     sc = draw_scenario(ch)
     viol = []
     probes = {}
+    if job.get("fam") == "sweep":
+        probes["sweep_" + job["flow"]] = 1
     ctx = ["[scenario=%s]" % json.dumps(sc, sort_keys=True)]
 
     def v(rule, sig, msg):
@@ -335,10 +397,15 @@ def run(job, streams=None):
             m.on_record = on_record
             desc.update(dir=d)
 
+    awf = [None, None, None, "timeout", "epipe", "reset", "timeout"][
+        ch.draw(7, "a.awf")]
     sim, pair, m, oc, os_, st, tc, ts = execute(seed, sc, ch, attack,
                                                 session=session2,
-                                                cache=cache)
+                                                cache=cache, awf=awf)
     fired = list(m.fired)
+    if awf and any(t_.fired for t_ in pair.awf):
+        probes["alert_write_fault"] = 1
+        desc["alert_write_fault"] = awf
     if info.get("ext") is not None:
         desc["ext"] = info["ext"]
     ctx[0] = "[attack=%s scenario=%s]" % (json.dumps(desc),
@@ -390,7 +457,10 @@ def run(job, streams=None):
             sim.run()
             probes["close_after_attack"] = 1
             from tlslite.errors import TLSLocalAlert as _TLA
-            if o_r.kind == "exc" and not isinstance(o_r.exc, _TLA):
+            own_failed_alert = awf and isinstance(o_r.exc, OSError) and \
+                any(t_.fired for t_ in pair.awf)
+            if o_r.kind == "exc" and not isinstance(o_r.exc, _TLA) and \
+                    not own_failed_alert:
                 # (a fatal alert raised by the reader itself is a detection:
                 # tampered post-handshake records are only seen now)
                 v("attack_surfaces_after_handshake",
@@ -398,6 +468,20 @@ def run(job, streams=None):
                                 getattr(o_r.exc, "description", "")),
                   "both completed; then the peer's orderly close was read "
                   "as %r" % (o_r.exc,))
+        # every byte of a plaintext handshake message is covered by the
+        # transcript both Finished values are computed over: the two ends
+        # cannot both complete on transcripts that differ in one
+        if kind == "bitflip" and fired and desc.get("pos", 0) >= 5 and \
+                desc["idx"] < len(lay[desc["dir"]]) and \
+                lay[desc["dir"]][desc["idx"]][0] == 22 and \
+                desc["pos"] - 5 < len(lay[desc["dir"]][desc["idx"]][2]):
+            body_ = lay[desc["dir"]][desc["idx"]][2]
+            v("transcripts_differ", "bitflip|%s|hs%d|%s" % (
+                desc["dir"], body_[0], "tls13" if bver == (3, 4)
+                else "tls<=1.2"),
+              "both completed although byte %d of the %s handshake record "
+              "#%d (first message type %d) was changed in flight" %
+              (desc["pos"] - 5, desc["dir"], desc["idx"], body_[0]))
         if fired and not viol:
             probes["both_complete_same"] = 1
     # ---- sentinel sub-oracle
